@@ -680,3 +680,31 @@ DESIGN_REF = "DESIGN.md section 4 C02, section 3.2"
 LEVEL_NOTE = ("history-* streams are inside the Coq model (dispatch entry hist = WallHistory.run_history, compared step by step with the implementation). Trusted: Coq kernel+VM; Spec/Zone.v as a model of zoneinfo (validated against zoneinfo at every probe); the hand model Model/TzConvert.v of tz/timezone.py and "
               "DateTime.create (validated by correspondence); wf2 of every shipped table is proved by kernel computation on the data itself (Gen/ZoneTables.v, regenerated from the staged interpreter's zoneinfo on every run: 599 names, 441 distinct tables, 43240 transitions, POSIX rules expanded to 2100; theorem shipped_zones_wellformed) and the construction theorems are restated for the concrete zones (shipped_zone_*); the harness still evaluates wf2 on every window it feeds the model (rule years beyond 2100); extraction+driver cross-checked with vm_compute.")
 TECHNIQUE = "Coq proof by induction over transition tables (lia) + differential correspondence at every tz transition"
+
+
+# ---- specification side tied to CPython's own source (appended; supersedes the Spec/Zone.v sentences above) ----
+# coq/Gen/StdlibZone.v is the machine translation of CPython's pure-Python zoneinfo (zoneinfo/_zoneinfo.py: _ts_to_local,
+# _get_local_timestamp, _find_trans, utcoffset, fromutc; and bisect.py's bisect_right loop), regenerated on every run from the files the
+# staged interpreter imports (tools/vlib/gens/g13_stdlib_zone.py); Props/C02.v spec_is_stdlib_* prove Spec/Zone.v equal to it.
+_ZSPEC_NEW = (
+    "Spec/Zone.v (the specification side) is PROVED to be the algorithm of CPython's pure-Python zoneinfo (Gen/StdlibZone.v = translation of "
+    "zoneinfo/_zoneinfo.py, regenerated from the staged interpreter's stdlib on every run; theorems spec_is_stdlib_ts_to_local [every table], "
+    "spec_is_stdlib_utcoffset [= off_local, every well-formed table, every datetime and fold], spec_is_stdlib_fromutc [= render at second "
+    "granularity, every well-formed table not consisting of exactly one transition; for exactly one transition the pure-Python fromutc keeps the "
+    "fold only at the transition second - spec_is_stdlib_fromutc_single/_refuted, a defect of CPython's _zoneinfo.py that the C implementation "
+    "(the harness oracle, and what pendulum uses) does not have; 9 shipped zones with a single backward LMT step and a DST-less TZ string have that shape], spec_is_stdlib_bisect_right [bisect.py's loop = the sorted-list contract]). "
+    "Scope of the translation: dt is not None, _tz_after is a plain _ttinfo - the POSIX-rule tail _TZStr is OUT OF SCOPE (tools/vlib/zones.py "
+    "expands rule transitions into the tables it feeds the model; that expansion stays validated by the zone-spec correspondence stream). "
+    "What remains trusted on the spec side: the C accelerator _zoneinfo (the class zoneinfo.ZoneInfo actually is) agrees with _zoneinfo.py "
+    "(still covered by the zone-spec stream at every probe); by hand in the translation (coq/Model/StdlibZoneObj.v, coq/Lib/PyList.v): a ZoneInfo "
+    "object is the record of the five attributes the lookups read, a _ttinfo is its utcoff in seconds, a datetime is "
+    "toordinal()/hour/minute/second/fold, `dt + timedelta` and `dt.replace(fold=1)`, the encoding of a table as the data _load_file stores "
+    "(utcoffsets[0] = _tti_before = z_init; the storing lines of _load_file are checked by shape), EPOCHORDINAL's value is the interpreter's "
+    "(proved = ymd2ord 1970 1 1)")
+TRUSTED = [t for t in TRUSTED] + [_ZSPEC_NEW]
+LEVEL_NOTE = (LEVEL_NOTE.replace("Spec/Zone.v as a model of zoneinfo (validated against zoneinfo at every probe)",
+                                 "Spec/Zone.v no longer as a hand model: it is proved to be the algorithm of CPython's pure-Python zoneinfo "
+                                 "(spec_is_stdlib_*, translation of zoneinfo/_zoneinfo.py regenerated every run; POSIX-rule tail out of scope, "
+                                 "C accelerator vs _zoneinfo.py and the rule expansion still validated against zoneinfo at every probe)"))
+LEVEL_TEXT = (LEVEL_TEXT + " The specification Spec/Zone.v itself is proved equal to the translation of CPython's own pure-Python zoneinfo "
+              "lookups (_ts_to_local, utcoffset, fromutc) for every table, wall second and instant.")
